@@ -154,6 +154,10 @@ impl<'a, D> Bfs<'a, D> {
     ///
     /// * `digraph`: The digraph.
     /// * `sources`: The source vertices.
+    ///
+    /// # Panics
+    ///
+    /// Panics if a source vertex isn't in the digraph.
     #[must_use]
     pub fn new<T>(digraph: &'a D, sources: T) -> Self
     where
@@ -166,6 +170,8 @@ impl<'a, D> Bfs<'a, D> {
         let visited_ptr = visited.as_mut_ptr();
 
         for u in sources {
+            assert!(u < order, "u = {u} isn't in the digraph");
+
             queue.push_back(u);
 
             unsafe {
